@@ -17,7 +17,7 @@ from vlib.probe import LibError, hexf
 
 # ------------------------------------------------------------------ vocabulary
 WELL_POOL = ["P1", "P2", "P3", "PA1", "PB2", "I1", "I2", "OP1"]
-WELL_PATTERNS = ["P*", "I*", "PA*", "O*", "P1*", "X*", "*"]
+WELL_PATTERNS = ["P*", "I*", "PA*", "O*", "P1*", "*", "P*", "I*", "X*"]
 GROUP_POOL = ["G1", "G2", "GA"]
 WVARS = ["WOPR", "WWPR", "WGPR", "WBHP"]
 GVARS = ["GOPR", "GWPR"]
@@ -116,7 +116,7 @@ class Ref:
         if t == "num":
             return self.tk in "WG"
         if t == "var":
-            return n[2] is None or "*" in n[2]
+            return n[1][0] != "F" and (n[2] is None or "*" in n[2])
         if t in ("neg", "par"):
             return self.libset(n[1])
         if t == "fn":
@@ -474,38 +474,77 @@ def to_deck_data(tokens, style):
 
 
 # ------------------------------------------------------------------ generator, part A
-def vals():
-    return st.one_of(st.integers(1, 240).map(lambda k: k / 4.0),
-                     st.integers(1, 240).map(lambda k: k / 4.0),
-                     st.integers(1, 240).map(lambda k: k / 4.0),
-                     st.integers(1, 240).map(lambda k: k / 4.0),
-                     st.sampled_from([0.0, -0.5, -2.0, -7.25, 1.0, 2.0]))
+class Src:
+    """Entropy source: all randomness is one Hypothesis-drawn byte string (st.binary), decoded
+    deterministically.  (A composite strategy with ~100 separate draws per case costs 20 ms per case; one
+    binary draw costs 0.3 ms.)  Zero bytes select the first = simplest alternative, so Hypothesis' byte
+    shrinking still simplifies cases."""
+
+    def __init__(self, data):
+        self.d = data
+        self.i = 0
+
+    def byte(self):
+        if self.i < len(self.d):
+            b = self.d[self.i]
+            self.i += 1
+            return b
+        return 0
+
+    def int(self, lo, hi):
+        n = hi - lo + 1
+        if n <= 256:
+            return lo + self.byte() % n
+        return lo + (self.byte() * 256 + self.byte()) % n
+
+    def bool(self):
+        return self.byte() & 1 == 1
+
+    def choice(self, seq):
+        return seq[self.int(0, len(seq) - 1)]
+
+    def perm(self, seq):
+        seq = list(seq)
+        for i in range(len(seq) - 1):
+            j = self.int(i, len(seq) - 1)
+            seq[i], seq[j] = seq[j], seq[i]
+        return seq
+
+    def val(self):
+        """a summary value: mostly positive multiples of 1/4 (exact in binary, comparisons either exactly
+        equal or far apart), sometimes 0 / negative / small integers"""
+        if self.int(0, 9) == 0:
+            return self.choice([0.0, -0.5, -2.0, -7.25, 1.0, 2.0])
+        return self.int(1, 240) / 4.0
 
 
 class G:
     """recursive generator of typed expressions; `shape` 'S' scalar, 'W'/'G' set"""
 
-    def __init__(self, draw, env):
-        self.draw = draw
+    def __init__(self, src, env):
+        self.src = src
         self.env = env
         self.budget = 14
 
     def pick(self, options):
-        """options: list of (weight, name); first = simplest (Hypothesis shrinks towards it)"""
+        """options: list of (weight, name); first = simplest (shrinking goes towards it)"""
         names = []
         for w, nme in options:
             names += [nme] * w
-        return self.draw(st.sampled_from(names))
+        return self.src.choice(names)
 
     def num(self):
-        return ["num", self.draw(st.sampled_from(NUMBERS))]
+        return ["num", self.src.choice(NUMBERS)]
 
     def setvar(self, kind):
         e = self.env
         names = (WVARS + e["wudq"]) if kind == "W" else (GVARS + e["gudq"])
-        name = self.draw(st.sampled_from(names))
-        if kind == "W" and self.draw(st.integers(0, 3)) == 0:
-            return ["var", name, self.draw(st.sampled_from(WELL_PATTERNS))]
+        name = self.src.choice(names)
+        if kind == "W" and self.src.int(0, 3) == 3:
+            pat = self.src.choice(WELL_PATTERNS)
+            if not any(w.startswith(pat[:-1]) for w in e["wells"]):
+                pat = self.src.choice(WELL_PATTERNS)      # patterns matching no well stay, but rarer
+            return ["var", name, pat]
         return ["var", name, None]
 
     def scalar_atom(self):
@@ -514,16 +553,21 @@ class G:
         if c == "num":
             return self.num()
         if c == "f":
-            return ["var", self.draw(st.sampled_from(FVARS + e["fudq"])), None]
-        if e["groups"] and self.draw(st.integers(0, 2)) == 0:
-            name = self.draw(st.sampled_from(GVARS + e["gudq"]))
-            who = self.draw(st.sampled_from(e["groups"]))
+            return ["var", self.src.choice(FVARS + e["fudq"]), None]
+        if e["groups"] and self.src.int(0, 2) == 2:
+            name = self.src.choice(GVARS + e["gudq"])
+            who = self.src.choice(e["groups"])
         else:
-            name = self.draw(st.sampled_from(WVARS + e["wudq"]))
-            who = self.draw(st.sampled_from(e["wells"]))
-        return ["var", name, who, self.draw(st.booleans())]
+            name = self.src.choice(WVARS + e["wudq"])
+            who = self.src.choice(e["wells"])
+        if who not in e["defined"].get(name, ()):
+            who2 = self.src.choice(e["groups"] if name[0] == "G" else e["wells"])
+            if self.src.int(0, 3) != 0:
+                who = who2                                # undefined scalars stay, but rarer
+        return ["var", name, who, self.src.bool()]
 
     def gen(self, shape, depth, pos=False):
+        src = self.src
         self.budget -= 1
         if depth <= 0 or self.budget <= 0:
             return self.scalar_atom() if shape == "S" else self.setvar(shape)
@@ -543,21 +587,21 @@ class G:
         if c == "neg":
             return ["neg", self.gen(shape, depth - 1, pos)]
         if c == "reduce":
-            f = self.draw(st.sampled_from(REDUCE))
+            f = src.choice(REDUCE)
             tk = self.env["tk"]
-            kind = tk if tk in "WG" else self.draw(st.sampled_from(["W", "W", "G"] if self.env["groups"] else ["W"]))
+            kind = tk if tk in "WG" else src.choice(["W", "W", "G"] if self.env["groups"] else ["W"])
             return ["fn", f, self.gen(kind, depth - 1, pos or f in ("AVEG", "AVEH"))]
         if c == "elem":
-            if shape == "S" or self.draw(st.booleans()):
-                f = self.draw(st.sampled_from(ELEM_ANY))
+            if shape == "S" or src.bool():
+                f = src.choice(ELEM_ANY)
             else:
-                f = self.draw(st.sampled_from(ELEM_SET + ["SORTA", "SORTD", "DEF", "IDV"]))
+                f = src.choice(["DEF", "IDV", "SORTA", "SORTD", "SORTA", "SORTD", "DEF", "IDV", "UNDEF"])
             if f == "EXP":
                 return ["fn", f, ["bin", "/", self.gen(shape, depth - 1, pos), ["num", "20"]]]
             return ["fn", f, self.gen(shape, depth - 1, pos or f in ("LN", "LOG"))]
         if c == "uop":
-            op = self.draw(st.sampled_from(UOPS))
-            k = self.draw(st.integers(0, 9))
+            op = src.choice(UOPS)
+            k = src.int(0, 9)
             l = self.gen(shape, depth - 1)
             if k <= 6:
                 r = self.gen(shape, depth - 1)
@@ -568,68 +612,242 @@ class G:
             return ["bin", op, l, r]
         # arith / cmp
         if c == "cmp":
-            op = self.draw(st.sampled_from(CMP))
+            op = src.choice(CMP)
         elif pos:
-            op = self.draw(st.sampled_from(["+", "*", "/", "+", "*"]))
+            op = src.choice(["+", "*", "/", "+", "*"])
         else:
-            op = self.draw(st.sampled_from(["+", "-", "*", "/", "^", "+", "-", "*", "/"]))
+            op = src.choice(["+", "-", "*", "/", "^", "+", "-", "*", "/"])
         if shape == "S":
             ls, rs = "S", "S"
         else:
-            ls, rs = self.draw(st.sampled_from([(shape, shape), (shape, "S"), ("S", shape), (shape, "S")]))
-        l = self.gen(ls, depth - 1, pos)
-        if op == "^" and self.draw(st.integers(0, 9)) < 7:
-            r = ["num", self.draw(st.sampled_from(POW_EXPONENTS))]
-            if self.draw(st.integers(0, 5)) == 0:
+            ls, rs = src.choice([(shape, shape), (shape, "S"), ("S", shape), (shape, "S")])
+        if op == "^" and src.int(0, 9) < 7:
+            # mostly a literal exponent (keeps magnitudes and the pow domain under control)
+            l = self.gen(shape if (ls, rs) == ("S", shape) else ls, depth - 1, pos)
+            r = ["num", src.choice(POW_EXPONENTS)]
+            if src.int(0, 5) == 5:
                 r = ["neg", r]
-            if rs != "S" and ls == "S":
-                l = self.gen(shape, depth - 1, pos)
         else:
+            l = self.gen(ls, depth - 1, pos)
             r = self.gen(rs, depth - 1, pos)
         return ["bin", op, l, r]
 
 
-@st.composite
-def expr_case(draw):
-    nw = draw(st.integers(1, 6))
-    wells = draw(st.permutations(WELL_POOL))[:nw]
-    ng = draw(st.integers(1, 3))
-    groups = sorted(draw(st.permutations(GROUP_POOL))[:ng])
-    tk = draw(st.sampled_from(["W", "W", "W", "G", "F", "F"]))
+def build_expr_case(data):
+    src = Src(data)
+    nw = src.int(1, 6)
+    wells = src.perm(WELL_POOL)[:nw]
+    ng = src.int(1, 3)
+    groups = sorted(src.perm(GROUP_POOL)[:ng])
+    tk = src.choice(["W", "W", "W", "G", "F", "F"])
+    style = src.int(0, 3)       # 0..2: UDQDefine(tokens) with three ways of cutting DATA items; 3: deck text
+    all_def = src.int(0, 4) == 4
 
-    def table(names, force_all):
+    def table(names, force_all, p_undef=3):
         """values for a subset of names (at least one, so that the vector exists)"""
-        keep = [n for n in names if force_all or draw(st.integers(0, 3)) != 0]
+        keep = [n for n in names if force_all or src.int(0, p_undef) != p_undef]
         if not keep:
-            keep = [names[draw(st.integers(0, len(names) - 1))]]
-        return [[n, draw(vals())] for n in keep]
+            keep = [src.choice(names)]
+        return [[n, src.val()] for n in keep]
 
-    all_def = draw(st.integers(0, 4)) == 0
-    field = [[k, draw(vals())] for k in FVARS]
+    field = [[k, src.val()] for k in FVARS]
     wvars = [[v, table(wells, all_def)] for v in WVARS]
     # every group exists in the summary state through GOPR
     gvars = [["GOPR", table(groups, True)], ["GWPR", table(groups, all_def)]]
     udqs = []
     for nme in WUDQ:
-        udqs.append([nme, "W", [[w, draw(vals())] for w in wells if draw(st.integers(0, 2)) != 0]])
-    for nme in GUDQ:
-        udqs.append([nme, "G", [[g, draw(vals())] for g in groups if draw(st.integers(0, 2)) != 0]])
+        udqs.append([nme, "W", table(wells, all_def, 2)])
+    gudq = GUDQ if style != 3 else []      # deck path: a group UDQ cannot be ASSIGNed (known finding)
+    for nme in gudq:
+        udqs.append([nme, "G", table(groups, all_def, 2)])
     for nme in FUDQ:
-        udqs.append([nme, "F", draw(vals()) if draw(st.integers(0, 5)) != 0 else None])
-    env = {"tk": tk, "wells": wells, "groups": groups, "wudq": WUDQ, "gudq": GUDQ, "fudq": FUDQ}
-    g = G(draw, env)
-    depth = draw(st.integers(1, 5))
+        udqs.append([nme, "F", src.val() if src.int(0, 7) != 7 else None])
+    defined = {var: {n for n, _ in lst} for var, lst in wvars + gvars}
+    defined.update({nme: {n for n, _ in data} for nme, kind, data in udqs if kind != "F"})
+    env = {"tk": tk, "wells": wells, "groups": groups, "wudq": WUDQ, "gudq": gudq, "fudq": FUDQ,
+           "defined": defined}
+    g = G(src, env)
+    depth = src.int(1, 5)
     if tk == "F":
         shape = "S"
     else:
-        shape = draw(st.sampled_from([tk, tk, tk, "S"]))
+        shape = src.choice([tk, tk, tk, "S"])
     ast = g.gen(shape, depth)
     return {"part": "A", "wells": wells, "target": tk + "U_X", "field": field, "wvars": wvars, "gvars": gvars,
-            "udqs": udqs, "ast": ast, "style": draw(st.integers(0, 2))}
+            "udqs": udqs, "ast": ast, "style": style}
+
+
+def expr_case():
+    return st.binary(min_size=256, max_size=256).map(build_expr_case)
+
+
+# ------------------------------------------------------------------ generator, part B (histories)
+B_QUANTITIES = ["WU_A", "FU_A", "WU_B", "GU_A", "FU_B"]
+B_WELLS = [("P1", "G1"), ("P2", "G1"), ("I1", "G2"), ("PA1", "G2"), ("I2", "G1")]
+B_PATTERNS = ["P*", "I*", "*", "PA*"]
+B_NUMBERS = ["2", "3", "0.5", "10", "1.5", "4", "7"]
+
+
+class GB:
+    """small expressions over summary vectors only (they change every step, so that evaluated / frozen /
+    evaluated-once are distinguishable); shapes of the known part-A findings are avoided by construction
+    as far as possible (no ^, no eps-comparisons, no UNDEF)"""
+
+    def __init__(self, src, tk):
+        self.src = src
+        self.tk = tk
+
+    def atom(self, shape):
+        src = self.src
+        if shape == "S":
+            c = src.int(0, 3)
+            if c == 0:
+                return ["num", src.choice(B_NUMBERS)]
+            if c == 1:
+                return ["var", src.choice(FVARS), None]
+            if c == 2:
+                return ["var", src.choice(WVARS), src.choice([w for w, _ in B_WELLS[:2]]), src.bool()]
+            return ["var", src.choice(FVARS), None]
+        if shape == "W":
+            name = src.choice(WVARS)
+            if src.int(0, 3) == 3:
+                return ["var", name, src.choice(B_PATTERNS)]
+            return ["var", name, None]
+        return ["var", src.choice(GVARS), None]
+
+    def gen(self, shape, depth):
+        src = self.src
+        if depth <= 0:
+            return self.atom(shape)
+        c = src.int(0, 9)
+        if c <= 1:
+            return self.atom(shape)
+        if shape == "S" and c <= 4:
+            kind = self.tk if self.tk in "WG" else src.choice(["W", "G"])
+            return ["fn", src.choice(["SUM", "MAX", "MIN", "AVEA", "NORM1"]), self.gen(kind, depth - 1)]
+        if c == 5:
+            return ["fn", src.choice(["ABS", "ABS", "IDV", "DEF"] if shape != "S" else ["ABS"]), self.gen(shape, depth - 1)]
+        if c == 6 and shape != "S":
+            return ["bin", src.choice(["UMAX", "UMIN", "UADD"]), self.gen(shape, depth - 1), self.gen(shape, depth - 1)]
+        op = src.choice(["+", "-", "*", "/", "+", "*", "<", ">"])
+        if shape == "S":
+            ls, rs = "S", "S"
+        else:
+            ls, rs = src.choice([(shape, shape), (shape, "S"), ("S", shape)])
+        return ["bin", op, self.gen(ls, depth - 1), self.gen(rs, depth - 1)]
+
+
+def build_hist_case(data):
+    src = Src(data)
+    nw = src.int(2, 5)
+    wells = B_WELLS[:nw]
+    nq = src.int(1, 4)
+    qs = src.perm(B_QUANTITIES)[:nq]
+    if src.int(0, 2) != 0 and "GU_A" in qs and len(qs) > 1:
+        qs.remove("GU_A")               # group quantities in a minority of histories
+    nsteps = src.int(3, 8)
+    groups = sorted({g for _, g in wells})
+    mode, status, defstep, clean, seen = {}, {}, {}, {}, []
+    steps = []
+
+    def summary():
+        # all vectors get new values every step, expanded deterministically from two drawn bytes
+        base = src.int(0, 65535)
+        cnt = [0]
+
+        def nxt():
+            cnt[0] += 1
+            h = ((base * 131 + cnt[0] * 7919 + 12345) * 2654435761) % (2 ** 32)
+            return ((h >> 9) % 200 + 1) / 4.0
+        return {"field": [[k, nxt()] for k in FVARS],
+                "wvars": [[v, [[w, nxt()] for w, _ in wells]] for v in WVARS],
+                "gvars": [[v, [[g, nxt()] for g in groups]] for v in GVARS]}
+
+    def define(q):
+        tk = q[0]
+        shape = "S" if tk == "F" else src.choice([tk, tk, tk, "S"])
+        return ["DEFINE", q, GB(src, tk).gen(shape, src.int(0, 2))]
+
+    def assign(q, full):
+        v = src.choice(["1", "2.5", "-3", "7", "0.25", "12", "0"])
+        sel = None
+        if not full and q[0] == "W" and src.int(0, 2) == 0:
+            sel = src.choice([w for w, _ in wells] + ["P*", "I*"])
+        return ["ASSIGN", q, v, sel]
+
+    for s in range(nsteps):
+        recs = []
+        if s == 0 or src.int(0, 9) < 7:
+            for _ in range(src.int(1, 3)):
+                q = src.choice(qs)
+                m = mode.get(q)
+                if m is None:
+                    # lifecycle usually starts with an ASSIGN
+                    r = assign(q, False) if src.int(0, 2) != 0 else define(q)
+                elif m == "A":
+                    c = src.int(0, 5)
+                    r = define(q) if c <= 2 else (["UNITS", q, "SM3"] if c == 3 else assign(q, not clean[q]))
+                else:
+                    st_ = status[q]
+                    earlier = defstep[q] < s
+                    c = src.int(0, 9)
+                    if st_ == "ON":
+                        if earlier and c <= 3:
+                            r = ["UPDATE", q, "OFF"]
+                        elif earlier and c == 4:
+                            r = ["UPDATE", q, "NEXT"]
+                        elif c == 5:
+                            r = define(q)
+                        elif c == 6:
+                            r = assign(q, True)
+                        elif c == 7:
+                            r = ["UNITS", q, "SM3"]
+                        else:
+                            r = ["UPDATE", q, "ON"]
+                    else:
+                        if c <= 5:
+                            r = ["UPDATE", q, "ON"]
+                        elif c == 6 and earlier:
+                            r = ["UPDATE", q, "NEXT"]
+                        elif c == 7:
+                            r = define(q)
+                        elif c == 8:
+                            r = assign(q, True)
+                        else:
+                            r = ["UPDATE", q, "OFF"] if earlier else ["UPDATE", q, "ON"]
+                recs.append(r)
+                if q not in seen:
+                    seen.append(q)
+                if r[0] == "ASSIGN":
+                    mode[q] = "A"
+                    if r[3] is None:
+                        clean[q] = True
+                    clean.setdefault(q, True)
+                elif r[0] == "DEFINE":
+                    was_off = status.get(q) in ("OFF", "NEXT")
+                    mode[q] = "D"
+                    status[q] = "ON"
+                    defstep[q] = s
+                    clean[q] = False
+                    if was_off:
+                        # whether a new DEFINE re-enables a switched-off quantity is not stated: say it
+                        recs.append(["UPDATE", q, "ON"])
+                elif r[0] == "UPDATE":
+                    status[q] = r[2]
+        steps.append({"udq": recs, "summary": summary()})
+    return {"part": "B", "wells": [list(w) for w in wells], "quantities": seen, "steps": steps}
+
+
+def any_case():
+    def build(data):
+        if data[0] % 10 == 0:
+            return build_hist_case(data[1:])
+        return build_expr_case(data[1:])
+    return st.binary(min_size=300, max_size=300).map(build)
 
 
 # ------------------------------------------------------------------ the check
-KNOWN_ORDER = ["pow-mul-precedence", "pow-scalar-set", "pow-undefined-rhs", "cmp-eps-zero-lhs-throws",
+KNOWN_ORDER = ["assign-group-throws", "update-next-repeats", "pow-mul-precedence", "pow-scalar-set", "pow-undefined-rhs", "cmp-eps-zero-lhs-throws",
                "cmp-eps-negative-lhs", "undef-function-throws", "undefined-scalar-broadcast-throws",
                "empty-reduction-throws"]
 
@@ -644,30 +862,74 @@ def close(exp, got, scale):
 class C17(Check):
     ID = "C17"
     PROBE_GROUP = "udq"
-    RULE = ("Part A: random typed expression trees (depth <= 5, <= 14 nodes) over numbers, field / well / group "
-            "summary vectors (no selector, single name, wildcard pattern), earlier UDQs, + - * / ^, the six "
-            "comparisons, UADD/UMUL/UMIN/UMAX, unary minus, parentheses, 10 reductions and 10 elemental functions; "
-            "rendered with the minimal parentheses the documented precedence requires (plus random redundant ones) "
-            "and cut into DATA items in three ways; evaluated on a random summary state over 1..6 wells and 1..3 "
-            "groups with random undefined entries, for field, well and group targets. Non-trivial: >= 3 binary "
-            "operators of >= 2 different ranks, or a set operand with an undefined element combined with a scalar. "
-            "Distinct by operator/function skeleton + target type + operand kinds.")
-    ASSUMPTIONS = []
-    EXAMPLES = {"quick": 1500, "thorough": 40000}
-    MIN_EVALS = {"quick": 12000, "thorough": 300000}
+    # 16 probes share 16 cores: OpenMP teams inside FieldPropsManager only spin against each other (25-80 ms
+    # instead of 3 ms per Schedule construction)
+    PROBE_ENV = {"OMP_NUM_THREADS": "1"}
+    RULE = ("Part A (9 of 10 cases): random typed expression trees (depth <= 5, <= 14 nodes) over numbers, field / "
+            "well / group summary vectors (no selector, single name, wildcard pattern), earlier UDQs, + - * / ^, the "
+            "six comparisons, UADD/UMUL/UMIN/UMAX, unary minus, parentheses, 10 reductions and 10 elemental "
+            "functions; rendered with exactly the parentheses the documented precedence requires (plus random "
+            "redundant ones), cut into DATA items in three ways for UDQDefine(...).eval(context) or written as deck "
+            "text and run through Parser -> Schedule -> UDQConfig::eval; summary state over 1..6 wells and 1..3 "
+            "groups with random undefined entries; field, well and group targets.  Non-trivial: >= 3 binary "
+            "operators of >= 2 different ranks, or a set operand with an undefined element combined with a scalar; "
+            "distinct by operator/function skeleton + target type + operand kinds.  "
+            "Part B (1 of 10): histories over 3..8 report steps of ASSIGN (all / one well / pattern), DEFINE (small "
+            "expressions over summary vectors that change every step), UPDATE ON|OFF|NEXT and UNITS records for 1..4 "
+            "field/well/group quantities, legal with respect to the quantity's state, run as deck text through "
+            "Schedule and UDQConfig(step).eval step by step.  Non-trivial: some quantity is ASSIGNed, then DEFINEd, "
+            "then switched OFF and ON again; distinct by the sequence of (step, quantity type, action).")
+    ASSUMPTIONS = [
+        "comparison epsilon is the documented UDQPARAM default 1e-4; operands are exactly equal (<= 1e-9 relative) or "
+        "differ by > 1e-2 relative, anything in between is discarded",
+        "cases whose reference evaluation divides by zero, leaves the domain of ^ / LN / LOG / AVEG / AVEH, exceeds "
+        "1e15 in an intermediate, ranks equal values (SORTA/SORTD), rounds a half-integer (NINT) or strictly compares "
+        "values that are equal up to rounding are outside the domain (discarded, counted)",
+        "not asserted because the statement does not fix it: associativity of ^, of chained comparisons and of chained "
+        "union operators (always parenthesised), rank of unary minus against ^ (parenthesised), union operators "
+        "between a scalar and a set (an exception is accepted, a returned value is compared), reductions / SORTA / "
+        "SORTD / DEF / IDV / UNDEF of set-free arguments (not generated), group wildcards (not generated), "
+        "well sets and group sets in one expression (not generated), segment/region/table-lookup operands, "
+        "RANDN/RANDU/RRNDN/RRNDU",
+        "part B: DEFINE expressions refer to summary vectors only (no references between UDQs: the evaluation order of "
+        "re-defined quantities is not stated); UPDATE OFF/NEXT only for quantities DEFINEd at an earlier step; a "
+        "re-DEFINE of a switched-off quantity is followed by an explicit UPDATE ON; a partial ASSIGN is generated "
+        "only while 'replace the selected elements' and 'replay all ASSIGN records' mean the same",
+        "a mismatch on an expression/history that contains the shape of a known finding is attributed to that "
+        "finding (suppressed while it is listed as known); such cases are 10-15 % of the evaluations",
+    ]
+    EXAMPLES = {"quick": 3000, "thorough": 40000}
+    MIN_EVALS = {"quick": 30000, "thorough": 400000}
     TIME_CAP = {"quick": 150, "thorough": 1000}
-    LEVEL_TEXT = ""
-    LEVEL_NOTE = ""
-    TECHNIQUE = "property-based testing (Hypothesis) against a reference evaluator"
+    LEVEL_TEXT = ("Generated-input search with an independent reference: expression trees are drawn from the UDQ "
+                  "grammar, written out with the documented precedence (parentheses first, functions, ^, * /, + -, "
+                  "comparisons, union operators; * / + - left to right) and evaluated both by the library (token "
+                  "vector -> UDQDefine::eval, and deck text -> Schedule -> UDQConfig::eval) and by a Python evaluator "
+                  "written from the statement (element-wise, scalar broadcasting, undefined propagation, definitions "
+                  "of the 20 functions); names, definedness and values (1e-12 relative) must agree.  Histories of "
+                  "ASSIGN/DEFINE/UPDATE records are compared step by step with a reference state machine.")
+    LEVEL_NOTE = ("Sampled, not exhaustive: ~48 000 (quick) / ~640 000 (thorough) cases per run.  Trusted: the Python "
+                  "reference evaluator / state machine as a reading of the statement; the probe's observation of "
+                  "UDQSet / UDQState / SummaryState through public getters.  Ten genuine deviations found by this "
+                  "check are listed as known; expressions containing their shapes are not decided further.")
+    TECHNIQUE = ("property-based testing: Hypothesis-driven grammar generator (single byte-string entropy source), "
+                 "differential comparison with a reference evaluator and a reference state machine")
+
+    def floors(self, tier):
+        return {"A": 0.8, "B": 0.05, "nontrivial": 0.2, "undefined-element-with-scalar": 0.08,
+                "result-has-undefined": 0.15, "A:via-deck": 0.1, "B:nontrivial": 0.005,
+                "target:F": 0.1, "target:G": 0.05, "target:W": 0.2}
 
     def strategy(self, tier):
-        return expr_case()
+        return any_case()
 
     # ------------------------------------------------------------ classification
     def tokens(self, case):
         return render(case["ast"], [])
 
     def classify(self, case):
+        if case.get("part") == "B":
+            return self.classify_hist(case)
         toks = self.tokens(case)
         ops = [t for t in toks if t in RANK]
         # unary minus is rendered as "-" too: count binary operators from the tree instead
@@ -686,6 +948,8 @@ class C17(Check):
                 walk(n[2])
         walk(case["ast"])
         labels = ["A", "target:" + case["target"][0], "style:%d" % case["style"]]
+        if case["style"] == 3:
+            labels.append("A:via-deck")
         for o in set(ops):
             labels.append("op:" + o)
         for f in fns:
@@ -747,7 +1011,59 @@ class C17(Check):
         walk(ast)
         return found[0]
 
+    def classify_hist(self, case):
+        labels = ["B", "B:steps:%d" % len(case["steps"])]
+        per_q = {}
+        skel = []
+        for si, stp in enumerate(case["steps"]):
+            for r in stp["udq"]:
+                a = r[0] if r[0] != "UPDATE" else r[2]
+                per_q.setdefault(r[1], []).append(a)
+                skel.append("%d%s%s" % (si, r[1][0], a))
+                if r[0] == "ASSIGN" and r[3] is not None:
+                    labels.append("B:partial-assign")
+                if r[0] == "ASSIGN" and r[1][0] == "G":
+                    labels.append("B:group-assign")
+                if r[0] == "DEFINE":
+                    labels.append("B:define-target:" + r[1][0])
+
+        def subseq(seq, pat):
+            i = 0
+            for x in seq:
+                if x == pat[i]:
+                    i += 1
+                    if i == len(pat):
+                        return True
+            return False
+        nontriv = False
+        for q, seq in per_q.items():
+            if subseq(seq, ["ASSIGN", "DEFINE"]):
+                labels.append("B:assign-then-define")
+            if subseq(seq, ["DEFINE", "ASSIGN"]):
+                labels.append("B:define-then-assign")
+            if subseq(seq, ["OFF", "ON"]):
+                labels.append("B:off-then-on")
+            if "NEXT" in seq:
+                labels.append("B:update-next")
+            if subseq(seq, ["DEFINE", "DEFINE"]):
+                labels.append("B:redefine")
+            if subseq(seq, ["ASSIGN", "DEFINE", "OFF", "ON"]):
+                nontriv = True
+        try:
+            for h in self.hist_reference(case)[1]:
+                labels.append("B:known-shape:" + h)
+        except Discard:
+            pass
+        except Exception:
+            labels.append("classify-ref-error")
+        labels = sorted(set(labels))
+        if nontriv:
+            labels.append("B:nontrivial")
+        return nontriv, sha(["B", skel], 16), labels
+
     def sample_view(self, case):
+        if case.get("part") == "B":
+            return {"deck": self.hist_deck(case)}
         return {"target": case["target"], "expr": " ".join(self.tokens(case)), "wells": case["wells"],
                 "style": case["style"]}
 
@@ -755,7 +1071,168 @@ class C17(Check):
     def check(self, case, ctx):
         if case.get("part") == "A":
             return self.check_expr(case, ctx)
+        if case.get("part") == "B":
+            return self.check_hist(case, ctx)
         raise Discard("unknown part")
+
+    @staticmethod
+    def expr_deck(case, expr):
+        """part A through the full path: wells, the earlier UDQs as ASSIGNs, the DEFINE under test"""
+        L = ["SCHEDULE", "WELSPECS"]
+        for i, w in enumerate(case["wells"]):
+            L.append(" '%s' 'G%d' %d %d 1* OIL /" % (w, i % 2 + 1, i + 1, i + 1))
+        L += ["/", "UDQ"]
+        for name, kind, data in case["udqs"]:
+            if kind == "F":
+                if data is not None:
+                    L.append(" ASSIGN %s %r /" % (name, data))
+            else:
+                for who, v in data:
+                    L.append(" ASSIGN %s '%s' %r /" % (name, who, v))
+        L.append(" DEFINE %s %s /" % (case["target"], expr))
+        L += ["/", "TSTEP", " 1 /"]
+        return "\n".join(L) + "\n"
+
+    # ------------------------------------------------------------ part B
+    @staticmethod
+    def hist_deck(case):
+        L = ["SCHEDULE", "WELSPECS"]
+        for i, (w, g) in enumerate(case["wells"]):
+            L.append(" '%s' '%s' %d %d 1* OIL /" % (w, g, i + 1, i + 1))
+        L.append("/")
+        for stp in case["steps"]:
+            if stp["udq"]:
+                L.append("UDQ")
+                for r in stp["udq"]:
+                    if r[0] == "ASSIGN":
+                        sel = "" if r[3] is None else ("'%s' " % r[3])
+                        L.append(" ASSIGN %s %s%s /" % (r[1], sel, r[2]))
+                    elif r[0] == "DEFINE":
+                        L.append(" DEFINE %s %s /" % (r[1], " ".join(render(r[2], []))))
+                    elif r[0] == "UPDATE":
+                        L.append(" UPDATE %s %s /" % (r[1], r[2]))
+                    else:
+                        L.append(" UNITS %s '%s' /" % (r[1], r[2]))
+                L.append("/")
+            L.append("TSTEP")
+            L.append(" 1 /")
+        return "\n".join(L) + "\n"
+
+    @staticmethod
+    def hist_reference(case):
+        """reference state machine -> (expected per step {q: {elem: value|None}}, hazards)
+        Rules (statement + UDQ keyword documentation): records are processed in input order; the last
+        ASSIGN/DEFINE of a quantity decides whether it is a constant or an expression; an ASSIGN is applied once,
+        at the step it is entered (all elements, or the selected ones); a DEFINEd quantity is evaluated at
+        every step while its update status is ON, exactly once after UPDATE NEXT, never while OFF (its value
+        stays); a new DEFINE starts ON; quantities are evaluated in the order of their first appearance."""
+        wells = [w for w, _ in case["wells"]]
+        groups = sorted({g for _, g in case["wells"]})
+        uni = {"W": wells, "G": groups, "F": [""]}
+        mode, status, defs, order = {}, {}, {}, []
+        vals = {}
+        cur = {"field": {}, "wvars": {}, "gvars": {}}
+        hazards = set()
+        out = []
+        spent = set()           # quantities whose UPDATE NEXT has been used up
+        prev_assign = False
+        for stp in case["steps"]:
+            pending = []
+            for r in stp["udq"]:
+                q = r[1]
+                if r[0] in ("ASSIGN", "DEFINE") and q not in order:
+                    order.append(q)
+                if r[0] == "ASSIGN":
+                    mode[q] = "A"
+                    pending.append(r)
+                    if q[0] == "G":
+                        hazards.add("assign-group-throws")
+                elif r[0] == "DEFINE":
+                    mode[q] = "D"
+                    defs[q] = r[2]
+                    status[q] = "ON"
+                elif r[0] == "UPDATE":
+                    status[q] = r[2]
+                if r[0] in ("DEFINE", "UPDATE"):
+                    spent.discard(q)
+            # known finding 'update-next-repeats' can only show at a step that owns a fresh UDQConfig copy (a step
+            # with a UDQ keyword, or the step after one with an ASSIGN) while a NEXT has been used up
+            if (stp["udq"] or prev_assign) and any(mode[q] == "D" for q in spent):
+                hazards.add("update-next-repeats")
+            prev_assign = bool(pending)
+            sm = stp["summary"]
+            for k, v in sm["field"]:
+                cur["field"][k] = v
+            for key in ("wvars", "gvars"):
+                for var, lst in sm[key]:
+                    cur[key].setdefault(var, {}).update(dict(lst))
+            for r in pending:
+                q, v, sel = r[1], float(r[2]), r[3]
+                tab = vals.setdefault(q, {e: None for e in uni[q[0]]})
+                for e in uni[q[0]]:
+                    if sel is None or e == sel or (sel.endswith("*") and e.startswith(sel[:-1])):
+                        tab[e] = v
+            for q in order:
+                if mode[q] == "D" and status[q] in ("ON", "NEXT"):
+                    pc = {"wells": wells, "target": q,
+                          "field": [[k, v] for k, v in cur["field"].items()],
+                          "wvars": [[var, list(d.items())] for var, d in cur["wvars"].items()],
+                          "gvars": [[var, list(d.items())] for var, d in cur["gvars"].items()], "udqs": []}
+                    ref = Ref(pc)
+                    res = ref.result(defs[q])
+                    hazards |= ref.hazards
+                    vals[q] = dict(zip(res["names"], res["vals"]))
+                    if status[q] == "NEXT":
+                        status[q] = "OFF"
+                        spent.add(q)
+            out.append({q: dict(t) for q, t in vals.items()})
+        return out, hazards
+
+    def check_hist(self, case, ctx):
+        exp, hazards = self.hist_reference(case)       # may raise Discard
+        key = next((k for k in KNOWN_ORDER if k in hazards), None)
+        deck = self.hist_deck(case)
+        qs = case["quantities"]
+        try:
+            r = ctx.P.call("udq_sched", deck=deck, steps=[s["summary"] for s in case["steps"]],
+                           observe=[[q, q[0]] for q in qs])
+        except LibError as e:
+            return {"rule": "library throws while building the schedule / evaluating a valid UDQ history",
+                    "detail": {"deck": deck, "exception": str(e)[:300], "known_shapes": sorted(hazards)}, "key": key}
+        if len(r["steps"]) != len(case["steps"]):
+            return {"rule": "number of report steps", "detail": [len(r["steps"]), len(case["steps"])], "key": None}
+        for si, (got, want) in enumerate(zip(r["steps"], exp)):
+            for item in got["q"]:
+                q = item[0]
+                if q[0] == "F":
+                    elems = [["", item[1], item[2]]]
+                else:
+                    elems = item[1]
+                w = want.get(q)
+                names = [e[0] for e in elems]
+                if w is not None and sorted(names) != sorted(w.keys()):
+                    return {"rule": "history: element names", "detail": {"deck": deck, "step": si, "q": q,
+                                                                         "got": names, "want": sorted(w.keys())},
+                            "key": key}
+                for nme, us, sv in elems:
+                    ev = None if w is None else w[nme]
+                    gv = None if us is None else hexf(us)
+                    ok = (ev is None and gv is None) or (ev is not None and gv is not None and close(ev, gv, abs(ev)))
+                    # the SummaryState copy: equal to the UDQ value when defined, the undefined value
+                    # (UDQPARAM item 3, default 0) or absent otherwise
+                    if ok and sv is not None:
+                        s_ = hexf(sv)
+                        ok = close(ev, s_, abs(ev)) if ev is not None else s_ == 0.0
+                    elif ok and ev is not None:
+                        ok = False
+                    if not ok:
+                        return {"rule": "history: value of a quantity at a report step differs from the "
+                                        "ASSIGN/DEFINE/UPDATE state machine",
+                                "detail": {"deck": deck, "step": si, "quantity": q, "element": nme, "expected": ev,
+                                           "udq_state": gv, "summary_state": None if sv is None else hexf(sv),
+                                           "known_shapes": sorted(hazards)},
+                                "key": key}
+        return None
 
     def check_expr(self, case, ctx):
         toks = self.tokens(case)
@@ -765,13 +1242,23 @@ class C17(Check):
         if pow_then_mul(toks):
             hazards.add("pow-mul-precedence")
         key = next((k for k in KNOWN_ORDER if k in hazards), None)
-        data = to_deck_data(toks, case["style"])
         expr = " ".join(toks)
         try:
-            r = ctx.P.call("udq_eval", wells=case["wells"], field=case["field"], wvars=case["wvars"],
-                           gvars=case["gvars"], udqs=case["udqs"], name=case["target"], tokens=data)
+            if case["style"] == 3:
+                data = self.expr_deck(case, expr)
+                rr = ctx.P.call("udq_sched", deck=data, observe=[[case["target"], case["target"][0]]],
+                                steps=[{"field": case["field"], "wvars": case["wvars"], "gvars": case["gvars"]}])
+                item = rr["steps"][0]["q"][0]
+                if case["target"][0] == "F":
+                    r = {"elems": [["", item[1] is not None, item[1]]]}
+                else:
+                    r = {"elems": [[e[0], e[1] is not None, e[1]] for e in item[1]]}
+            else:
+                data = to_deck_data(toks, case["style"])
+                r = ctx.P.call("udq_eval", wells=case["wells"], field=case["field"], wvars=case["wvars"],
+                               gvars=case["gvars"], udqs=case["udqs"], name=case["target"], tokens=data)
         except LibError as e:
-            if key is None and "uop-mixed" in ref.notes:
+            if "uop-mixed" in ref.notes:
                 # union operator between a scalar and a set: the statement does not say that it broadcasts
                 ctx.label("accepted-exception:uop-scalar-set")
                 return None
